@@ -190,6 +190,17 @@ impl Storable for AnnotationDataSet {
                 if let Some(Some(handle)) = keymap.get(data.key.as_usize()) {
                     data.key = *handle;
                 }
+                //an existing item with this id is replaced by the merge; if its key changes the key index must follow
+                let existing: Option<(DataKeyHandle, Option<AnnotationDataHandle>)> = data
+                    .id()
+                    .and_then(|id| <Self as StoreFor<AnnotationData>>::get(self, id).ok())
+                    .map(|existing| (existing.key, existing.handle()));
+                if let Some((oldkey, Some(datahandle))) = existing {
+                    if oldkey != data.key {
+                        self.key_data_map.remove(oldkey, datahandle);
+                        self.key_data_map.insert(data.key, datahandle);
+                    }
+                }
                 self.insert(data.unbind())?;
             }
         }
